@@ -94,6 +94,24 @@ def requeuer (waitCancelled : Bool) (tg : TopicGen) (dest : POut) (m : Msg) : Rq
     let m' : Msg := { m with md := mset m.md retriesKey (itoa (nextCounter m)) }
     ⟨[(t, m')], (if dest = .ok then .ack else .nack), m'⟩
 
+/-- `GeneratePublishTopic` is user code that is shown the message (`params.Message`): it may route by metadata, in
+    particular by the retries counter ("after k requeues → dead letter").  It is applied to the message AS CONSUMED –
+    before the counter is raised and written. -/
+abbrev TopicPolicy := Msg → TopicGen
+
+def requeuerP (waitCancelled : Bool) (pol : TopicPolicy) (dest : POut) (m : Msg) : RqOut :=
+  requeuer waitCancelled (pol m) dest m
+
+/-- retry budget: a message that already went round `k` times goes to the dead-letter topic -/
+def budgetPolicy (k : Int) (work dead : Str) : TopicPolicy :=
+  fun m => .ok (if k ≤ priorCounter m then dead else work)
+
+/-- the topic is named by a metadata key (error when absent or empty) -/
+def metaPolicy (key : Str) : TopicPolicy :=
+  fun m => match List.lookup key m.md with
+    | some t => if t.isEmpty then .err else .ok t
+    | none => .err
+
 /-! ### Forwarder -/
 
 structure Envelope where
